@@ -876,11 +876,12 @@ func (s *sim) compareBehaviour(ev int, moved map[uint64]bool) bool {
 			a := s.runBlock(fresh, mb.begin, len(mb.seq), seed)
 			b := s.runBlock(s.code, mb.begin, len(mb.seq), seed)
 			s.ctx.Note("c05 block %#x seed %d: %s %d | %s %d", mb.begin, k, a.err, a.steps, b.err, b.steps)
-			if strings.HasPrefix(a.err, "panic") {
-				// The original order itself crashes the emulator (e.g. an
-				// access wrapping around 2^64): that is C03's business and
-				// leaves nothing to compare.
-				s.ctx.Probe("original_crashes_skipped")
+			if a.err != "" {
+				// The original order itself cannot be run to its end (the
+				// emulator refuses an access reaching the end of the
+				// address space, an open C03 finding, or crashes): that
+				// is C03's business and leaves nothing to compare.
+				s.ctx.Probe("original_fails_skipped")
 				continue
 			}
 			if a != b {
@@ -928,7 +929,7 @@ func (s *sim) compareBehaviour(ev int, moved map[uint64]bool) bool {
 			seed := core.SplitMix64(s.t.VSeed ^ m.orig)
 			a := s.runBlock(fresh, m.orig, 1, seed)
 			b := s.runBlock(s.code, m.orig, 1, seed)
-			if strings.HasPrefix(a.err, "panic") {
+			if strings.HasPrefix(a.err, "panic") || (a.err != "" && b.err != "") {
 				continue
 			}
 			if a != b {
